@@ -95,4 +95,27 @@ theorem zIngr_perm (W : AMat Rat n) (c : Vector Int n) (flag : Nat) :
   simp only [zIngr, vget_ofFn, permVec_get, inMod_self, zFlag_perm, permVec_getElem]
   exact zOf_perm σ (zFlag W flag) (fun v => decide (c[v] = c[σ u])) u
 
+/-! ### diversity coefficient: `Σ_m φ(pnm[u, m])` for every summand `φ` (the routine uses `-p log p`), and the module count -/
+
+theorem numMods_perm (c : Vector Int n) : numMods (permVec σ c) = numMods c := by
+  rw [numMods_eq, numMods_eq, labelSet_perm]
+
+theorem pnmOf_perm (W : AMat Rat n) (p : Fin n → Bool) (u : Fin n) :
+    pnmOf (permA σ W) (fun v => p (σ v)) u = pnmOf W p (σ u) := by
+  simp only [pnmOf, permA_get, pt_sumFin_eq_fsum]
+  have h1 : (fsum fun v => W.get (σ u) (σ v)) = fsum fun v => W.get (σ u) v := fsum_congr_perm σ _ _ (fun _ => rfl)
+  have h2 : (sumIn (fun v => p (σ v)) fun v => W.get (σ u) (σ v)) = sumIn p fun v => W.get (σ u) v :=
+    sumIn_perm σ p (fun v => W.get (σ u) v)
+  rw [h1, h2]
+  split <;> simp_all
+
+theorem divSum_perm {α : Type} [AddCommMonoid α] (φ : Rat → α) (W : AMat Rat n) (c : Vector Int n) (u : Fin n) :
+    divSum φ (permA σ W) (permVec σ c) u = divSum φ W c (σ u) := by
+  unfold divSum
+  rw [modSum_eq, modSum_eq, labelSet_perm]
+  apply Finset.sum_congr rfl
+  intro ℓ _
+  simp only [permVec_getElem]
+  rw [pnmOf_perm σ W (fun v => decide (c[v] = ℓ)) u]
+
 end Bct.Measures
